@@ -1,2 +1,872 @@
-// Package c14 decides C14 (see DESIGN.md section 4). Not built yet.
+// Package c14 decides C14 (strings are byte sequences with Go's UTF-8 behaviour).
+//
+// spec/Utf8.tla is the reference (byte strings, UTF-8 decoding given both
+// declaratively and as the table of well-formed sequences, encoding, range,
+// conversions, index/slice/compare/concat/copy/append, key identity);
+// spec/Utf8Validate.tla checks the two UTF-8 definitions against each other for
+// every code point; spec/Utf8Scen.tla enumerates the scenarios with their
+// predicted results and checks properties of the reference on each of them.
+// The harness renders the scenarios as table-driven Go programs (every string
+// as a literal and built at run time), compiles them with the compiler under
+// test, runs them under Node and compares every printed line with the
+// prediction; the same program built by the reference toolchain guards the
+// specification.
 package c14
+
+import (
+	"encoding/json"
+	"fmt"
+	"math/rand"
+	"os"
+	"path/filepath"
+	"sort"
+	"strings"
+	"sync"
+	"time"
+	"unicode/utf8"
+
+	"verif/core"
+	"verif/gjs"
+	"verif/reg"
+	"verif/tlcx"
+)
+
+func init() { reg.Register("C14", "model_checking", Run) }
+
+// Alphabet is the boundary alphabet of DESIGN.md section 4 (C14).
+var Alphabet = []int{0x00, 0x22, 0x27, 0x5C, 0x41, 0x7F, 0x80, 0x8F, 0x90, 0x9F, 0xA0, 0xBF, 0xC0, 0xC1, 0xC2, 0xDF, 0xE0, 0xED, 0xEF, 0xF0, 0xF4, 0xF5, 0xFF}
+
+var boundaryRunes = []int{-1, 0, 0x41, 0x7F, 0x80, 0x7FF, 0x800, 0xD7FF, 0xD800, 0xDFFF, 0xE000, 0xFFFD, 0xFFFF, 0x10000, 0x10FFFF, 0x110000, 0x7FFFFFFF, -0x7FFFFFFF}
+
+const (
+	keyIndexNoPanic   = "string_index_out_of_range_no_panic"
+	keySliceLowNoPanc = "string_slice_low_beyond_len_no_panic"
+	keyInt64HighWord  = "string_from_int64_high_word_ignored"
+)
+
+var secNames = map[string][]string{
+	"a": {"len", "index", "index_int64", "index_uint8", "to_bytes", "from_bytes", "append", "copy_into_2", "copy_into_5"},
+	"r": {"range", "range_keys", "range_count", "to_runes", "from_runes", "unicode_utf8"},
+	"x": {"index_bounds", "index_bounds_int64", "slice", "slice_low_only", "slice_high_only"},
+	"e": {"literal_vs_runtime", "concatenated_vs_literal", "len"},
+	"m": {"map_and_switch_lookup", "map_len"},
+	"d": {"dynamic_map_len", "dynamic_map_lookup"},
+	"p": {"compare_literal_runtime", "compare_runtime_literal", "concat", "concat_len"},
+	"q": {"from_runes", "to_runes", "concat_of_string_rune"},
+	"l": {"len", "index_and_decode", "slice"},
+}
+
+// ---- parameters -----------------------------------------------------------------
+
+type randStr struct {
+	S     []int    `json:"s"`
+	Pairs [][2]int `json:"pairs"`
+}
+
+type longParam struct {
+	N     int      `json:"n"`
+	Pat   []int    `json:"pat"`
+	Offs  []int    `json:"offs"`
+	Pairs [][2]int `json:"pairs"`
+}
+
+func encodeRune(r int) []byte {
+	if r < 0 || r > 0x10FFFF || (r >= 0xD800 && r <= 0xDFFF) {
+		r = 0xFFFD
+	}
+	var b [4]byte
+	n := utf8.EncodeRune(b[:], rune(r))
+	return b[:n]
+}
+
+// rawPack packs r into the w-byte UTF-8 bit layout without any validity check
+// (overlong forms, surrogates, values above U+10FFFF).
+func rawPack(r, w int) []byte {
+	switch w {
+	case 2:
+		return []byte{byte(0xC0 | (r>>6)&0x1F), byte(0x80 | r&0x3F)}
+	case 3:
+		return []byte{byte(0xE0 | (r>>12)&0x0F), byte(0x80 | (r>>6)&0x3F), byte(0x80 | r&0x3F)}
+	default:
+		return []byte{byte(0xF0 | (r>>18)&0x07), byte(0x80 | (r>>12)&0x3F), byte(0x80 | (r>>6)&0x3F), byte(0x80 | r&0x3F)}
+	}
+}
+
+func randRune(rng *rand.Rand) int {
+	switch rng.Intn(6) {
+	case 0:
+		return rng.Intn(0x80)
+	case 1:
+		return 0x80 + rng.Intn(0x800-0x80)
+	case 2:
+		return 0x800 + rng.Intn(0x10000-0x800)
+	case 3:
+		return 0x10000 + rng.Intn(0x110000-0x10000)
+	case 4:
+		return boundaryRunes[rng.Intn(len(boundaryRunes))]
+	default:
+		return 0xD800 + rng.Intn(0x800)
+	}
+}
+
+func randPiece(rng *rand.Rand) []byte {
+	switch rng.Intn(7) {
+	case 0:
+		return []byte{byte(rng.Intn(256))}
+	case 1:
+		return []byte{byte(Alphabet[rng.Intn(len(Alphabet))])}
+	case 2, 3:
+		return encodeRune(randRune(rng))
+	case 4: // truncated encoding
+		e := encodeRune(randRune(rng))
+		return e[:len(e)-1]
+	case 5: // overlong / surrogate / out-of-range packing
+		r := randRune(rng)
+		if r < 0 {
+			r = 0x110000 + rng.Intn(0x1000)
+		}
+		w := 4
+		switch {
+		case r < 0x80:
+			w = 2 + rng.Intn(3)
+		case r < 0x10000:
+			w = 3 + rng.Intn(2)
+		}
+		return rawPack(r, w)
+	default: // valid encoding with one corrupted byte
+		e := append([]byte{}, encodeRune(randRune(rng))...)
+		e[rng.Intn(len(e))] ^= byte(1 << uint(rng.Intn(8)))
+		return e
+	}
+}
+
+func toInts(b []byte) []int {
+	o := make([]int, len(b))
+	for i, x := range b {
+		o[i] = int(x)
+	}
+	return o
+}
+
+func randBounds(rng *rand.Rand, n int) [2]int {
+	if rng.Intn(2) == 0 { // in range
+		lo := rng.Intn(n + 1)
+		return [2]int{lo, lo + rng.Intn(n+1-lo)}
+	}
+	return [2]int{rng.Intn(n+4) - 1, rng.Intn(n+4) - 1}
+}
+
+func limbsOf(lo32, hi32 uint32) [4]int {
+	return [4]int{int(lo32 & 0xFFFF), int(lo32 >> 16), int(hi32 & 0xFFFF), int(hi32 >> 16)}
+}
+
+func makeParams(c *core.Ctx) map[string]any {
+	rng := rand.New(rand.NewSource(c.Seed))
+	// seeded longer strings
+	var rs []randStr
+	for i := 0; i < c.Pick(64, 600); i++ {
+		target := 5 + rng.Intn(60)
+		var s []byte
+		for len(s) < target {
+			s = append(s, randPiece(rng)...)
+		}
+		if len(s) > 64 {
+			s = s[:64]
+		}
+		e := randStr{S: toInts(s)}
+		for k := 0; k < 8; k++ {
+			e.Pairs = append(e.Pairs, randBounds(rng, len(s)))
+		}
+		e.Pairs = append(e.Pairs, [2]int{len(s), len(s) + 1}, [2]int{len(s) + 1 + rng.Intn(3), len(s)})
+		rs = append(rs, e)
+	}
+	// sample for comparison / concatenation: short strings with common prefixes
+	seen := map[string]bool{}
+	var sample [][]int
+	add := func(b []byte) {
+		if !seen[string(b)] && len(b) <= 12 {
+			seen[string(b)] = true
+			sample = append(sample, toInts(b))
+		}
+	}
+	add(nil)
+	for _, a := range Alphabet {
+		add([]byte{byte(a)})
+	}
+	for _, r := range boundaryRunes {
+		add(encodeRune(r))
+	}
+	for _, s := range [][]byte{{0x41, 0x00}, {0x41, 0x41}, {0x00, 0x00}, {0xFF, 0xFF}, {0xFF, 0x00}, {0xC2, 0x80}, {0xC2, 0xBF}, {0xC2, 0x7F}, {0xE0, 0xA0, 0x80}, {0xE0, 0x9F, 0xBF}, {0xED, 0xA0, 0x80}, {0xEF, 0xBF, 0xBD}, {0xF4, 0x8F, 0xBF, 0xBF}, {0xF4, 0x90, 0x80, 0x80}, {0x7F, 0x80}, {0x80, 0x7F}} {
+		add(s)
+	}
+	for n := c.Pick(70, 130); len(sample) < n; {
+		base := sample[rng.Intn(len(sample))]
+		b := make([]byte, len(base))
+		for i, x := range base {
+			b[i] = byte(x)
+		}
+		switch rng.Intn(3) {
+		case 0:
+			b = append(b, randPiece(rng)...)
+		case 1:
+			if len(b) > 0 {
+				b[len(b)-1] = byte(rng.Intn(256))
+			}
+		default:
+			b = append(b, byte(Alphabet[rng.Intn(len(Alphabet))]))
+		}
+		add(b)
+	}
+	// integers for string(x)
+	var ints [][4]int
+	iseen := map[[4]int]bool{}
+	addInt := func(l [4]int) {
+		if !iseen[l] {
+			iseen[l] = true
+			ints = append(ints, l)
+		}
+	}
+	for _, r := range boundaryRunes {
+		hi := uint32(0)
+		if r < 0 {
+			hi = 0xFFFFFFFF
+		}
+		addInt(limbsOf(uint32(int32(r)), hi))
+	}
+	for _, v := range []uint64{0x7FE, 0x801, 0xFFFE, 0x10001, 0x10FFFE, 1 << 31, 1<<32 - 1, 1 << 32, 1<<32 + 0x41, 1<<32 + 0x10000, 1<<40 + 0x263A, 1<<63 - 1, 1 << 63, 1<<63 + 0x41, 0xFFFFFFFF00000041, 0xFFFFFFFF80000000, 0x100000000000041, 0xFF, 0x100, 0x8000, 0xFFFFFFFFFFFF8000, 0xFFFFFFFFFFFFFF80} {
+		addInt(limbsOf(uint32(v), uint32(v>>32)))
+	}
+	for i := 0; i < c.Pick(24, 200); i++ {
+		switch rng.Intn(3) {
+		case 0:
+			addInt(limbsOf(uint32(randRune(rng)), 0))
+		case 1:
+			addInt(limbsOf(rng.Uint32(), 0))
+		default:
+			addInt(limbsOf(uint32(randRune(rng)), rng.Uint32()>>uint(rng.Intn(32))))
+		}
+	}
+	// runes for string([]rune{r1, r2})
+	runes := append([]int{}, boundaryRunes...)
+	rseen := map[int]bool{}
+	for _, r := range runes {
+		rseen[r] = true
+	}
+	for n := len(runes) + c.Pick(6, 22); len(runes) < n; {
+		r := randRune(rng)
+		if rng.Intn(5) == 0 {
+			r = int(int32(rng.Uint32()))
+			if r == -0x80000000 {
+				continue
+			}
+		}
+		if !rseen[r] {
+			rseen[r] = true
+			runes = append(runes, r)
+		}
+	}
+	// long strings
+	var longs []longParam
+	pats := [][]int{{0xE2, 0x82, 0xAC}, {0xF0, 0x9F, 0x98, 0x80}, {0x41}}
+	rp := randPiece(rng)
+	rp = append(rp, randPiece(rng)...)
+	rp = append(rp, byte(rng.Intn(256)))
+	pats = append(pats, toInts(rp))
+	ns := []int{10000, 10001, 20001}
+	if c.Thorough() {
+		ns = append(ns, 9999, 30000, 10000+rng.Intn(10000))
+	}
+	for i, n := range ns {
+		for j, pat := range pats {
+			if !c.Thorough() && (i+j)%2 == 1 {
+				continue
+			}
+			l := longParam{N: n, Pat: pat}
+			l.Offs = []int{-1, 0, 1, 9998, 9999, 10000, 10001, n - 2, n - 1, n, n + 1, rng.Intn(n)}
+			l.Pairs = [][2]int{{9998, 10003}, {0, n}, {10000, n + 1}, {n, n}, {9999, 10000}, {1, n - 1}, {n + 1, n + 1}, randBounds(rng, n)}
+			if n > 20000 {
+				l.Offs = append(l.Offs, 19999, 20000, 20001)
+				l.Pairs = append(l.Pairs, [2]int{19998, 20002})
+			}
+			longs = append(longs, l)
+		}
+	}
+	return map[string]any{
+		"alphabet": Alphabet, "maxlen": c.Pick(3, 4), "classes": []string{"str", "grp", "pair", "rune", "rand", "long"},
+		"rand": rs, "sample": sample, "ints": ints, "runes": runes, "longs": longs, "out": "scen",
+	}
+}
+
+// ---- comparison -----------------------------------------------------------------
+
+type diff struct {
+	key       string // known-defect classifier, "" = none
+	group     string
+	e         *expLine
+	sec       string
+	want, got string
+	line      string
+}
+
+type agg struct {
+	count int
+	first diff
+}
+
+type collector struct {
+	mu     sync.Mutex
+	groups map[string]*agg
+}
+
+func (co *collector) add(d diff) {
+	co.mu.Lock()
+	defer co.mu.Unlock()
+	k := d.key
+	if k == "" {
+		k = "?" + d.group
+	}
+	a := co.groups[k]
+	if a == nil {
+		a = &agg{first: d}
+		co.groups[k] = a
+	}
+	a.count++
+}
+
+func isPanicTok(t string) bool { return strings.HasSuffix(t, "=P") || strings.HasSuffix(t, "=Q") }
+
+// classify returns the classifier key of a known defect class for one differing
+// token, or "".
+func classify(e *expLine, sec int, want, got string) string {
+	switch e.kind {
+	case "x":
+		if (sec == 0 || sec == 1) && strings.HasSuffix(want, "=P") && !isPanicTok(got) && sameLHS(want, got) {
+			// the specification (and the reference toolchain) panic because the index is out
+			// of range; the compiled program went on
+			return keyIndexNoPanic
+		}
+		if sec == 3 && strings.HasSuffix(want, ":=P") && sameLHS(want, got) && strings.HasSuffix(got, ":=-") {
+			var lo int
+			if _, err := fmt.Sscanf(want, "%d:=P", &lo); err == nil && lo > len(e.sc.s) {
+				return keySliceLowNoPanc
+			}
+		}
+	case "l":
+		if sec == 1 && strings.HasSuffix(want, "=P") && !isPanicTok(got) && sameLHS(want, got) {
+			var o int
+			if _, err := fmt.Sscanf(want, "%d=P", &o); err == nil && o >= e.lc.slen {
+				return keyIndexNoPanic
+			}
+		}
+	case "i":
+		if sec < len(e.secTypes) && (e.secTypes[sec] == "int64" || e.secTypes[sec] == "uint64") && (e.limbs[2] != 0 || e.limbs[3] != 0) {
+			low := e.limbs[0] + e.limbs[1]<<16
+			if got == jb(encodeRune(low)) {
+				return keyInt64HighWord
+			}
+		}
+	}
+	return ""
+}
+
+func sameLHS(a, b string) bool {
+	i, j := strings.IndexByte(a, '='), strings.IndexByte(b, '=')
+	return i >= 0 && j >= 0 && a[:i] == b[:j]
+}
+
+// compare returns the differences between a predicted and an observed line.
+func compare(e *expLine, got string) []diff {
+	if got == e.want {
+		return nil
+	}
+	whole := []diff{{group: e.kind + "/line", e: e, sec: "line", want: e.want, got: got, line: got}}
+	if len(got) < 2 || got[:2] != e.want[:2] {
+		return whole
+	}
+	ws, gs := strings.Split(e.want[2:], " | "), strings.Split(got[2:], " | ")
+	if len(ws) != len(gs) {
+		return whole
+	}
+	var out []diff
+	for i := range ws {
+		if ws[i] == gs[i] {
+			continue
+		}
+		name := fmt.Sprint(i)
+		if n := secNames[e.kind]; i < len(n) {
+			name = n[i]
+		} else if e.kind == "i" && i < len(e.secTypes) {
+			name = "string(" + e.secTypes[i] + ")"
+		}
+		wt, gt := strings.Split(ws[i], " "), strings.Split(gs[i], " ")
+		if len(wt) != len(gt) {
+			out = append(out, diff{group: e.kind + "/" + name, e: e, sec: name, want: ws[i], got: gs[i], line: got})
+			continue
+		}
+		for k := range wt {
+			if wt[k] != gt[k] {
+				out = append(out, diff{key: classify(e, i, wt[k], gt[k]), group: e.kind + "/" + name, e: e, sec: name, want: wt[k], got: gt[k], line: got})
+			}
+		}
+	}
+	return out
+}
+
+type stats struct {
+	mu       sync.Mutex
+	lines    int
+	discards int
+	programs int
+	dumped   int
+	cases    map[string]int
+}
+
+// runProgram executes one program on both tool chains and compares.
+func runProgram(c *core.Ctx, pool *gjs.Pool, p *program, co *collector, st *stats) {
+	if len(p.exp) == 0 {
+		return
+	}
+	prog := p.source()
+	if d := os.Getenv("VERIF_C14_DUMP"); d != "" { // debugging aid: keep every generated program
+		st.mu.Lock()
+		st.dumped++
+		dir := filepath.Join(d, fmt.Sprintf("p%03d_%s", st.dumped, p.exp[0].kind))
+		st.mu.Unlock()
+		os.MkdirAll(dir, 0o755)
+		os.WriteFile(filepath.Join(dir, "main.go"), []byte(prog.Files["main.go"]), 0o644)
+		os.WriteFile(filepath.Join(dir, "go.mod"), []byte("module vp\n\ngo 1.20\n"), 0o644)
+		os.WriteFile(filepath.Join(dir, "expected.txt"), []byte(p.expected()), 0o644)
+	}
+	t0 := time.Now()
+	b := pool.RunBoth(c.Scratch, prog, gjs.Opts{}, 10*time.Minute, true, false)
+	if os.Getenv("VERIF_VERBOSE") != "" {
+		fmt.Fprintf(os.Stderr, "[C14] program with %d lines (%d bytes of source, kinds %s..): %.1fs\n", len(p.exp), len(prog.Files["main.go"]), p.exp[0].kind, time.Since(t0).Seconds())
+	}
+	files := func() map[string]string {
+		f := prog.ReplayFiles("prog")
+		f["expected.txt"] = p.expected()
+		return f
+	}
+	if b.BuildErr != nil {
+		if be, ok := b.BuildErr.(*gjs.BuildError); ok && be.Panic {
+			c.Report(core.Case{Keys: []string{"compiler_panic"}, Summary: "compiler internal error on a string table program: " + be.Error(), Files: files()})
+		} else {
+			c.Infra(fmt.Errorf("gopherjs build failed: %v", b.BuildErr))
+		}
+		return
+	}
+	if b.NativeErr != "" {
+		c.Infra(fmt.Errorf("reference toolchain rejected a generated program: %s", tlcx.Tail(b.NativeErr, 20)))
+		return
+	}
+	if len(b.Native.Lines) != len(p.exp) || b.Native.End != "exit" {
+		c.Infra(fmt.Errorf("native run printed %d lines, want %d (end=%s %s)", len(b.Native.Lines), len(p.exp), b.Native.End, b.Native.Msg))
+		return
+	}
+	if len(b.JS.Lines) != len(p.exp) || b.JS.End != "exit" {
+		f := files()
+		f["observed.txt"] = b.JS.Raw
+		c.Report(core.Case{Keys: []string{"program_aborted"}, Summary: fmt.Sprintf("compiled string table program printed %d lines, want %d; end=%s msg=%s", len(b.JS.Lines), len(p.exp), b.JS.End, b.JS.Msg), Files: f})
+		return
+	}
+	n, nd := 0, 0
+	for i := range p.exp {
+		e := &p.exp[i]
+		if b.Native.Lines[i] != e.want {
+			// specification guard: the reference toolchain disagrees with the prediction
+			nd++
+			if os.Getenv("VERIF_VERBOSE") != "" {
+				fmt.Fprintf(os.Stderr, "[C14] spec/guard disagreement on %s\n  spec:   %s\n  native: %s\n", e.desc, e.want, b.Native.Lines[i])
+			}
+			continue
+		}
+		n++
+		for _, d := range compare(e, b.JS.Lines[i]) {
+			co.add(d)
+		}
+	}
+	st.mu.Lock()
+	st.lines += n
+	st.discards += nd
+	st.programs++
+	st.mu.Unlock()
+}
+
+// ---- the check --------------------------------------------------------------------
+
+// Run is the C14 check.
+func Run(c *core.Ctx, pool *gjs.Pool) {
+	if dir := os.Getenv("VERIF_REPLAY"); dir != "" {
+		replay(c, pool, dir)
+		return
+	}
+	c.Assumef("strings are modelled as sequences of bytes; a run-time panic is one outcome (runtime.Error or not is printed, the message text is not compared)")
+	c.Assumef("programs print only ASCII lines of decimal integers (println of bytes >= 0x80 is a documented rendering difference)")
+	c.Assumef("string(x) for int/uint/uintptr x is exercised with 32-bit values only (documented width of int); capacity of converted slices is not observed")
+	c.Assumef("strings that enter from JavaScript (js.Object.String, internalisation) belong to C11 and are not covered here")
+
+	// 1. the two UTF-8 definitions agree for every code point (runs while the
+	// scenarios are enumerated; 4 + 4 TLC workers)
+	maxBlock := c.Pick(4351+64, 8191)
+	var vr *tlcx.Result
+	var verr error
+	var wg sync.WaitGroup
+	wg.Add(1)
+	go func() {
+		defer wg.Done()
+		cfg := fmt.Sprintf("SPECIFICATION Spec\nINVARIANT RoundTrip\nCHECK_DEADLOCK FALSE\nCONSTANT MaxBlock = %d\n", maxBlock)
+		vr, verr = tlcx.Run(c, tlcx.Opts{Module: "Utf8Validate", Cfg: cfg, Workers: 4, Timeout: 20 * time.Minute})
+	}()
+
+	// 2. enumerate scenarios with predictions
+	params := makeParams(c)
+	pj, _ := json.Marshal(params)
+	cfg := "SPECIFICATION Spec\nINVARIANT SpecOK\nINVARIANT Emit\nCHECK_DEADLOCK FALSE\n"
+	r, err := tlcx.Run(c, tlcx.Opts{Module: "Utf8Scen", Cfg: cfg, Workers: 4, Timeout: 25 * time.Minute, Files: map[string]string{"c14_params.json": string(pj)}, HeapMB: 8192})
+	wg.Wait()
+	if !tlcx.MustComplete(c, vr, verr, "Utf8Validate") {
+		return
+	}
+	c.Set("code_points_round_tripped", (maxBlock+1)*256)
+	if !tlcx.MustComplete(c, r, err, "Utf8Scen") {
+		return
+	}
+	c.Set("checker_cmd", "tlc Utf8Validate (INVARIANT RoundTrip); tlc Utf8Scen (INVARIANT SpecOK, INVARIANT Emit)")
+	c.Set("exhaustive", true)
+	c.Set("bounds", map[string]any{"alphabet_bytes": len(Alphabet), "max_len_exhaustive": params["maxlen"], "random_strings": len(params["rand"].([]randStr)),
+		"pair_sample": len(params["sample"].([][]int)), "integers": len(params["ints"].([][4]int)), "runes": len(params["runes"].([]int)), "long_strings": len(params["longs"].([]longParam))})
+	c.Phase("enumerate")
+
+	co := &collector{groups: map[string]*agg{}}
+	st := &stats{cases: map[string]int{}}
+	files, _ := filepath.Glob(filepath.Join(r.Dir, "scen.*.ndjson"))
+	sort.Strings(files)
+	if len(files) == 0 {
+		c.Infra(fmt.Errorf("Utf8Scen wrote no scenario files"))
+		return
+	}
+	// 3. batches of unit files; each batch is decoded, rendered and run by one worker
+	type batch struct {
+		class string
+		files []string
+	}
+	var batches []batch
+	byClass := map[string][]string{}
+	var total int64
+	sizes := map[string]int64{}
+	for _, f := range files {
+		cl := strings.SplitN(strings.TrimPrefix(filepath.Base(f), "scen."), "_", 2)[0]
+		byClass[cl] = append(byClass[cl], f)
+		if fi, err := os.Stat(f); err == nil {
+			sizes[f] = fi.Size()
+			total += fi.Size()
+		}
+	}
+	target := total / 48
+	if target < 1<<20 {
+		target = 1 << 20
+	}
+	for _, cl := range []string{"str", "rand", "grp"} {
+		var cur batch
+		var sz int64
+		for _, f := range byClass[cl] {
+			cur.class = cl
+			cur.files = append(cur.files, f)
+			sz += sizes[f]
+			if sz >= target {
+				batches = append(batches, cur)
+				cur, sz = batch{}, 0
+			}
+		}
+		if len(cur.files) > 0 {
+			batches = append(batches, cur)
+		}
+	}
+	var misc []string
+	for _, cl := range []string{"pair", "rune", "long"} {
+		misc = append(misc, byClass[cl]...)
+	}
+	batches = append(batches, batch{class: "misc", files: misc})
+	var sampleMu sync.Mutex
+	sampled := map[string]bool{}
+	c.ParMap(len(batches), func(i int) {
+		defer func() {
+			if r := recover(); r != nil {
+				c.Infra(fmt.Errorf("decoding TLC output: %v", r))
+			}
+		}()
+		bt := batches[i]
+		progs, err := buildPrograms(bt.class, bt.files, st, c.Pick(800, 1500))
+		if err != nil {
+			c.Infra(err)
+			return
+		}
+		for _, p := range progs {
+			for k := range p.exp {
+				c.Distinct(p.exp[k].key)
+			}
+			sampleMu.Lock()
+			if e := p.exp[len(p.exp)/2]; !sampled[e.kind] && len(sampled) < 5 {
+				sampled[e.kind] = true
+				c.Sample(map[string]any{"case": e.desc, "source": e.src, "predicted_line": clip(e.want, 300)})
+			}
+			sampleMu.Unlock()
+			runProgram(c, pool, p, co, st)
+		}
+	})
+	c.Phase("run")
+	c.Set("evaluations", st.lines)
+	c.Set("programs", st.programs)
+	c.Set("spec_guard_discards", st.discards)
+	c.Set("traces_validated_against_impl", st.lines)
+	c.Set("cases", st.cases)
+	c.Set("rule", "TLC enumerates every byte string over the 23-byte boundary alphabet up to max_len_exhaustive (each with all index values -1..len+2, all slice pairs 0..len+1 squared, s[lo:] and s[:hi] for -1..len+2), every key set prefix+<=1 byte, all pairs of the comparison sample, all pairs of the rune list, the integer list, VERIF_SEED-derived random strings (<= 64 bytes) and long repeated patterns; one evaluation = one printed line (one group of operations on one case from one source: literal or built at run time) that the reference toolchain printed as predicted and that was compared with the compiled program's line; distinct = distinct (case, operation group); non-trivial = all (every line evaluates string operations of the compiled program)")
+	if st.discards > 0 {
+		fmt.Printf("note: %d lines discarded because the reference toolchain disagrees with the specification\n", st.discards)
+	}
+
+	// 4. report
+	keys := make([]string, 0, len(co.groups))
+	for k := range co.groups {
+		keys = append(keys, k)
+	}
+	sort.Strings(keys)
+	reported := 0
+	for _, k := range keys {
+		a := co.groups[k]
+		d := a.first
+		var ck []string
+		if d.key != "" {
+			ck = []string{d.key}
+		} else {
+			reported++
+			if reported > 12 {
+				continue
+			}
+		}
+		rp := d.e.replay()
+		f := rp.source().ReplayFiles("prog")
+		f["expected.txt"] = rp.expected()
+		f["observed_line.txt"] = d.line + "\n"
+		f["scenario.txt"] = fmt.Sprintf("%s\nsource: %s\noperation: %s\npredicted: %s\nobserved:  %s\n", d.e.desc, d.e.src, d.sec, d.want, d.got)
+		cs := core.Case{Keys: ck, Files: f,
+			Summary: fmt.Sprintf("%s (%s), %s: Go/spec = %s, compiled program = %s (%d differing values of this class)", d.e.desc, srcName(d.e.src), d.sec, clip(d.want, 120), clip(d.got, 120), a.count)}
+		if !c.Report(cs) && len(ck) > 0 {
+			// a known finding: count every differing value, not only the example
+			for i := 1; i < a.count; i++ {
+				c.Report(cs)
+			}
+		}
+	}
+}
+
+func srcName(s string) string {
+	switch s {
+	case "lit":
+		return "as a literal"
+	case "rt":
+		return "built at run time"
+	}
+	return "literal and run-time forms"
+}
+
+func clip(s string, n int) string {
+	if len(s) > n {
+		return s[:n] + "..."
+	}
+	return s
+}
+
+// buildPrograms decodes the unit files of one batch and renders programs of
+// bounded size.
+func buildPrograms(class string, files []string, st *stats, perStr int) ([]*program, error) {
+	var progs []*program
+	count := func(k string, n int) {
+		st.mu.Lock()
+		st.cases[k] += n
+		st.mu.Unlock()
+	}
+	switch class {
+	case "str", "rand":
+		var cases []*strCase
+		for _, f := range files {
+			err := tlcx.ReadNDJSON(f, func(raw json.RawMessage) error {
+				v, err := decodeLine(raw)
+				if err != nil {
+					return err
+				}
+				for _, x := range seq(v) {
+					sc := decodeStrCase(class, x)
+					if !sc.sameBounds() {
+						return fmt.Errorf("s[lo:] and s[:hi] enumerated over different bounds")
+					}
+					cases = append(cases, sc)
+				}
+				return nil
+			})
+			if err != nil {
+				return nil, fmt.Errorf("decode %s: %v", f, err)
+			}
+		}
+		count(class+"_strings", len(cases))
+		per := perStr
+		if class == "rand" {
+			per = 300
+		}
+		for i := 0; i < len(cases); i += per {
+			j := i + per
+			if j > len(cases) {
+				j = len(cases)
+			}
+			p := newProgram()
+			p.addStr(cases[i:j])
+			progs = append(progs, p)
+		}
+	case "grp":
+		var gs []*grpCase
+		for _, f := range files {
+			err := tlcx.ReadNDJSON(f, func(raw json.RawMessage) error {
+				v, err := decodeLine(raw)
+				if err != nil {
+					return err
+				}
+				for _, x := range seq(v) {
+					gs = append(gs, decodeGrp(x))
+				}
+				return nil
+			})
+			if err != nil {
+				return nil, fmt.Errorf("decode %s: %v", f, err)
+			}
+		}
+		count("key_sets", len(gs))
+		for i := 0; i < len(gs); i += 150 {
+			j := i + 150
+			if j > len(gs) {
+				j = len(gs)
+			}
+			p := newProgram()
+			p.addGrp(gs[i:j])
+			progs = append(progs, p)
+		}
+	case "misc":
+		type pk struct{ a, b string }
+		pairs := map[pk]pairRes{}
+		var sample [][]byte
+		rps := map[[2]int]*runePair{}
+		var runes []int
+		rseen := map[int]bool{}
+		var intCases []*intCase
+		var longs []*longCase
+		for _, f := range files {
+			cl := strings.SplitN(strings.TrimPrefix(filepath.Base(f), "scen."), "_", 2)[0]
+			err := tlcx.ReadNDJSON(f, func(raw json.RawMessage) error {
+				v, err := decodeLine(raw)
+				if err != nil {
+					return err
+				}
+				switch cl {
+				case "pair":
+					row := seq(v)
+					a := bytesOf(row[0])
+					sample = append(sample, a)
+					for _, x := range seq(row[1]) {
+						t := seq(x)
+						pairs[pk{string(a), string(bytesOf(t[0]))}] = pairRes{num(t[1]), bytesOf(t[2])}
+					}
+				case "rune":
+					for _, x := range seq(v) {
+						t := seq(x)
+						if len(t) == 2 {
+							l := ints(t[0])
+							intCases = append(intCases, &intCase{limbs: [4]int{l[0], l[1], l[2], l[3]}, want: bytesOf(t[1])})
+						} else {
+							rs := ints(t[0])
+							rps[[2]int{rs[0], rs[1]}] = &runePair{rs: [2]int{rs[0], rs[1]}, bytes: bytesOf(t[1]), runes: ints(t[2])}
+							if !rseen[rs[0]] {
+								rseen[rs[0]] = true
+								runes = append(runes, rs[0])
+							}
+						}
+					}
+				case "long":
+					longs = append(longs, decodeLong(v))
+				}
+				return nil
+			})
+			if err != nil {
+				return nil, fmt.Errorf("decode %s: %v", f, err)
+			}
+		}
+		sort.Slice(sample, func(i, j int) bool { return string(sample[i]) < string(sample[j]) })
+		sort.Ints(runes)
+		count("compared_pairs", len(pairs))
+		count("rune_pairs", len(rps))
+		count("integers", len(intCases))
+		count("long_strings", len(longs))
+		resOf := func(a, b []byte) (pairRes, bool) { r, ok := pairs[pk{string(a), string(b)}]; return r, ok }
+		p := newProgram()
+		if err := p.addPairs(sample, resOf); err != nil {
+			return nil, err
+		}
+		progs = append(progs, p)
+		p = newProgram()
+		if err := p.addRunePairs(runes, func(r1, r2 int) (*runePair, bool) { r, ok := rps[[2]int{r1, r2}]; return r, ok }); err != nil {
+			return nil, err
+		}
+		p.addInts(intCases)
+		p.addLong(longs)
+		progs = append(progs, p)
+	}
+	return progs, nil
+}
+
+// replay re-decides one recorded scenario: prog/ holds the program, expected.txt
+// the lines the specification predicted.
+func replay(c *core.Ctx, pool *gjs.Pool, dir string) {
+	src, err := os.ReadFile(filepath.Join(dir, "prog", "main.go"))
+	if err != nil {
+		c.Infra(err)
+		return
+	}
+	exp, err := os.ReadFile(filepath.Join(dir, "expected.txt"))
+	if err != nil {
+		c.Infra(err)
+		return
+	}
+	want := strings.Split(strings.TrimRight(string(exp), "\n"), "\n")
+	prog := gjs.Prog{Files: map[string]string{"main.go": string(src)}}
+	b := pool.RunBoth(c.Scratch, prog, gjs.Opts{}, 5*time.Minute, true, false)
+	if b.BuildErr != nil || b.NativeErr != "" {
+		c.Infra(fmt.Errorf("replay: build failed: %v %s", b.BuildErr, b.NativeErr))
+		return
+	}
+	// the classifier keys recorded with the scenario (known findings stay known)
+	var keys []string
+	if sm, err := os.ReadFile(filepath.Join(dir, "SUMMARY.txt")); err == nil {
+		for _, l := range strings.Split(string(sm), "\n") {
+			if strings.HasPrefix(l, "keys: ") && len(l) > 6 {
+				keys = strings.Split(strings.TrimPrefix(l, "keys: "), ",")
+			}
+		}
+	}
+	n := 0
+	for i, w := range want {
+		if i >= len(b.Native.Lines) || b.Native.Lines[i] != w {
+			c.Add("spec_guard_discards", 1)
+			continue
+		}
+		n++
+		got := "<missing>"
+		if i < len(b.JS.Lines) {
+			got = b.JS.Lines[i]
+		}
+		if got != w {
+			f := prog.ReplayFiles("prog")
+			f["expected.txt"] = string(exp)
+			c.Report(core.Case{Keys: keys, Summary: fmt.Sprintf("replay %s line %d: Go/spec = %s, compiled program = %s", dir, i+1, clip(w, 160), clip(got, 160)), Files: f})
+		}
+	}
+	c.Set("evaluations", n)
+	c.Set("rule", "replay of one recorded scenario program against its recorded prediction")
+}
